@@ -12,6 +12,8 @@ import EEM.Model.Window
 import EEM.Model.BillingAgg
 import EEM.Model.PredictFrame
 import EEM.Model.Metrics
+import EEM.Gen.MetricFormulas
+import EEM.Gen.BillingAggTable
 import EEM.Model.SettingsTree
 import EEM.Gen.SettingsTables
 import EEM.Model.Gate
@@ -310,6 +312,23 @@ def opParseAgg (args : List String) : String :=
     | none => "bad-op"
   | _ => "bad-op"
 
+open EEM.Model.BillingAgg EEM.Gen.BillingAggTable in
+/-- `srcagg <billing|weighted> <hex string | ->`: the if-chain on `aggregation` as re-extracted from the source -/
+def opSrcAgg (args : List String) : String :=
+  match args with
+  | [cls, a] =>
+    let arg : Option (Option String) := if a == "-" then some none else (parseHexString a).map some
+    let chain := if cls == "weighted" then weightedArgChain else billingArgChain
+    match arg with
+    | some arg => match evalChain chain arg with
+      | .noAgg => "ok noAgg"
+      | .rule r => "ok rule:" ++ r
+      | .reject => "ok reject"
+      | .crash => "ok crash"
+      | .fallThrough => "ok fallThrough"
+    | none => "bad-op"
+  | _ => "bad-op"
+
 open EEM.Model.PredictFrame in
 def parseCell (s : String) : Option (Cell Float) :=
   if s == "n" then some .nan else if s == "i" then some .inf else (parseFloat s).map .fin
@@ -351,6 +370,7 @@ def showOptF : Option Float → String
   | none => "none"
 
 open EEM.Model.Metrics in
+open EEM.Gen in
 /-- `metrics <num_params> <obs pred>...` (`x` = not finite) -/
 def opMetrics (args : List String) : String :=
   match args with
@@ -372,7 +392,19 @@ def opMetrics (args : List String) : String :=
         s!"r_squared={showFloat (rSquared ps)}",
         s!"iqr={showFloat (iqr (obs ps))}", s!"cvrmse={showOptF (cvrmse ps)}", s!"cvrmse_adj={showOptF (cvrmseAdj ps k)}",
         s!"pnrmse={showOptF (pnrmse ps)}", s!"pnrmse_adj={showOptF (pnrmseAdj ps k)}", s!"nmae={showOptF (nmae ps)}",
-        s!"nmbe={showOptF (nmbe ps)}", s!"autocorr={showFloat (autocorr1 ps)}", s!"savings={showFloat (savings ps)}"]
+        s!"nmbe={showOptF (nmbe ps)}", s!"autocorr={showFloat (autocorr1 ps)}", s!"savings={showFloat (savings ps)}",
+        -- the SOURCE's formula chain (EEM.Gen.MetricFormulas, regenerated) on the model's base quantities
+        s!"src_n_prime={showFloat (MetricFormulas.n_prime (baseOf ps k))}", s!"src_ddof={showFloat (MetricFormulas.ddof (baseOf ps k))}",
+        s!"src_ddof_autocorr={showFloat (MetricFormulas.ddof_autocorr (baseOf ps k))}", s!"src_mse={showFloat (MetricFormulas.mse (baseOf ps k))}",
+        s!"src_rmse={showFloat (MetricFormulas.rmse (baseOf ps k))}", s!"src_rmse_adj={showFloat (MetricFormulas.rmse_adj (baseOf ps k))}",
+        s!"src_rmse_autocorr_adj={showFloat (MetricFormulas.rmse_autocorr_adj (baseOf ps k))}",
+        s!"src_cvrmse={showOptF (MetricFormulas.cvrmse (baseOf ps k))}", s!"src_cvrmse_adj={showOptF (MetricFormulas.cvrmse_adj (baseOf ps k))}",
+        s!"src_cvrmse_autocorr_adj={showOptF (MetricFormulas.cvrmse_autocorr_adj (baseOf ps k))}",
+        s!"src_pnrmse={showOptF (MetricFormulas.pnrmse (baseOf ps k))}", s!"src_pnrmse_adj={showOptF (MetricFormulas.pnrmse_adj (baseOf ps k))}",
+        s!"src_pnrmse_autocorr_adj={showOptF (MetricFormulas.pnrmse_autocorr_adj (baseOf ps k))}",
+        s!"src_nmae={showOptF (MetricFormulas.nmae (baseOf ps k))}", s!"src_pnmae={showOptF (MetricFormulas.pnmae (baseOf ps k))}",
+        s!"src_nmbe={showOptF (MetricFormulas.nmbe (baseOf ps k))}", s!"src_pnmbe={showOptF (MetricFormulas.pnmbe (baseOf ps k))}",
+        s!"src_r_squared_adj={showOptF (MetricFormulas.r_squared_adj (baseOf ps k))}"]
     | _, _ => "bad-op"
   | _ => "bad-op"
 
@@ -717,6 +749,7 @@ def step (line : String) : String :=
   | "baseline" :: args => opBaseline args
   | "reporting" :: args => opReporting args
   | "agg" :: args => opAgg args
+  | "srcagg" :: args => opSrcAgg args
   | "parseagg" :: args => opParseAgg args
   | "pframe" :: args => opPFrame args
   | "metrics" :: args => opMetrics args
